@@ -42,6 +42,7 @@ type Oblig struct {
 	Res      SolverResult
 	File     string
 	ExpectFail bool // canary / vacuity checks: must be sat
+	Cover      func() string // script asking whether the path that reaches this obligation is feasible (goal false)
 }
 
 func (o *Oblig) Name() string { return o.Func + "/" + o.Kind + "/" + o.Label }
